@@ -231,7 +231,7 @@ func hasSuffix(s, suf string) bool { return len(s) >= len(suf) && s[len(s)-len(s
 // parent, and references that belong to others are not lost on the way. M-OWN judges the
 // requests; this test supplies the inputs.
 func TestVerif_C02_DesiredOwnerRefs(t *testing.T) {
-	for _, refs := range []string{"foreign-controller", "foreign-plain", "parent-echo", "parent-wrong-uid", "two-foreign-plain", "parent-plain"} {
+	for _, refs := range []string{"foreign-controller", "foreign-plain", "parent-echo", "parent-wrong-uid", "two-foreign-plain", "parent-plain", "parent-controller-false"} {
 		for _, ssa := range []bool{false, true} {
 			for _, existing := range []bool{false, true} {
 				for _, kind := range []string{"Widget", "ConfigMap"} {
@@ -284,6 +284,9 @@ func runC02OwnerRefs(t *testing.T, id, refs string, ssa, existing bool, kind str
 	case "parent-plain":
 		// the hook lists the parent itself, as a plain (non-controller) owner
 		want = []interface{}{sim.Obj{"apiVersion": sc.parentInfo().APIVersion(), "kind": sc.parentInfo().Kind, "name": sc.parentName(), "uid": sim.UID(r.parent)}}
+	case "parent-controller-false":
+		// ... or with an explicit `controller: false` (a non-nil pointer to false is not "is the controller")
+		want = []interface{}{sim.Obj{"apiVersion": sc.parentInfo().APIVersion(), "kind": sc.parentInfo().Kind, "name": sc.parentName(), "uid": sim.UID(r.parent), "controller": false, "blockOwnerDeletion": false}}
 	case "parent-wrong-uid":
 		want = []interface{}{sim.Obj{"apiVersion": sc.parentInfo().APIVersion(), "kind": sc.parentInfo().Kind, "name": sc.parentName(), "uid": "previous-incarnation-" + uid, "controller": true, "blockOwnerDeletion": true}}
 	}
